@@ -150,8 +150,42 @@ def nan_to_token(x):
 # ---------------------------------------------------------------------------------------------
 # C07
 
+def c07_hypotheses(x):
+    """the hypotheses of C07_schema_valid / C07_roundtrip evaluated on a CodeData: every integer outside constants is
+    JSON-safe (|i| <= 2**53 - 1) and an additional line, where present at any depth, has a line"""
+    M = 2 ** 53 - 1
+    ok = lambda i: i is None or -M <= i <= M
+    todo, seen = [x], []
+    while todo:                                  # every nested CodeData (not through __iter__: hand-built data may not iterate)
+        k = todo.pop()
+        seen.append(k)
+        for a in [i.arg for b in k.blocks for i in b] + list(k._additional_args):
+            c = getattr(a, 'constant', None)
+            if isinstance(c, CodeData):
+                todo.append(c)
+    for k in seen:
+        if not (ok(k.first_line_number) and ok(k.stacksize)):
+            return False
+        al = k._additional_line
+        if al is not None and (al.line is None or not ok(al.line) or not all(ok(o) for o in al.additional_offsets)):
+            return False
+        args = [i.arg for b in k.blocks for i in b] + list(k._additional_args)
+        for b in k.blocks:
+            for i in b:
+                if not (ok(i._n_args_override) and ok(i.line_number) and all(ok(o) for o in i._line_offsets_override)):
+                    return False
+        for a in args:
+            if isinstance(a, int):
+                if not ok(a): return False
+            elif not all(ok(getattr(a, f, None)) for f in ('target', '_index_override', '_arg') if isinstance(getattr(a, f, None), int)):
+                return False
+    return True
+
+
 def c07_data(w, inp, x, can_encode):
     w.stats['documents'] += 1
+    hyp, e0 = try_(c07_hypotheses, x)
+    w.stats['c07_theorem_hypotheses_hold' if hyp else 'c07_theorem_hypotheses_fail'] += 1
     j, e = try_(x.to_json_data)
     if e is not None:
         w.violation('C07:to_json_data-raises', inp, {'error': O.exc_str(e)})
